@@ -793,7 +793,10 @@ func runProto(plan *Plan, tape *simrt.Tape) *Outcome {
 		}
 		ok := w.WaitCondSteps("conns", plan.Cfg.MaxSteps, func() bool { return remaining == 0 })
 		starvedNow = computeStarved()
-		if !ok || x.viol != nil {
+		if !ok || x.viol != nil || budgetOut {
+			// (budgetOut: a reply wait ran out of scheduler steps while the server was still busy -
+			// the reply sequences are incomplete, nothing may be concluded from them, the
+			// sentinel included)
 			return
 		}
 		// bounded liveness: a fresh connection is served
@@ -808,6 +811,14 @@ func runProto(plan *Plan, tape *simrt.Tape) *Outcome {
 			if !cs.closedByServer && !cs.op.Pretend && !cs.rc.incomplete && !cs.rc.closed && allRepliesOK(cs.replies) {
 				r := cs.cl.Do([]byte("version\r\n"))
 				if r.Status != "VERSION" {
+					if os.Getenv("VERIF_DEBUG") != "" {
+						for j, e := range cs.rc.exps {
+							fmt.Fprintf(os.Stderr, "EXP conn%d #%d kind=%d status=%q desc=%q\n", i, j, e.Kind, e.Status, trunc(e.Desc, 80))
+						}
+						for j, rr := range cs.replies {
+							fmt.Fprintf(os.Stderr, "GOT conn%d #%d %s\n", i, j, trunc(rr.String(), 120))
+						}
+					}
 					x.fail("R-proto-wedged", "", fmt.Sprintf("connection %d was left in sync but does not answer 'version': %s", i, r))
 					return
 				}
@@ -958,6 +969,15 @@ func isErrorReply(r Reply) bool {
 
 // compare checks the observed reply sequence of one connection against the expectations.
 func (x *protoExec) compare(ci int, rc *refConn, got []Reply, closedByServer bool, slow bool) {
+	if os.Getenv("VERIF_DEBUG") != "" {
+		for i, e := range rc.exps {
+			fmt.Fprintf(os.Stderr, "EXP conn%d #%d kind=%d status=%q desc=%q\n", ci, i, e.Kind, e.Status, trunc(e.Desc, 80))
+		}
+		for i, r := range got {
+			fmt.Fprintf(os.Stderr, "GOT conn%d #%d %s\n", ci, i, trunc(r.String(), 120))
+		}
+		fmt.Fprintf(os.Stderr, "conn%d closedByServer=%v incomplete=%v expClosed=%v\n", ci, closedByServer, rc.incomplete, rc.closed)
+	}
 	gi := 0
 	where := func(e expect) string { return fmt.Sprintf("connection %d, command %q", ci, e.Desc) }
 	for _, e := range rc.exps {
